@@ -159,3 +159,132 @@ func sortedFuncs(e *Engine, m map[string]*ssa.Function) []string {
 }
 
 func hasSuffixFold(s, suf string) bool { return strings.HasSuffix(s, suf) }
+
+// ---- interprocedural view of a client method: calls reached through package-local helpers ----
+
+// expandCalls visits every call instruction of root and, recursively, of the package-local (same role) helpers it calls
+// statically. ctx is the chain of call sites from root down to the function that contains the visited call. visit decides
+// whether to descend into the callee.
+func (e *Engine) expandCalls(role string, root *ssa.Function, visit func(c ssa.CallInstruction, ctx []callCtx) bool) {
+	var walk func(fn *ssa.Function, ctx []callCtx, depth int)
+	walk = func(fn *ssa.Function, ctx []callCtx, depth int) {
+		for _, b := range fn.Blocks {
+			if b == fn.Recover {
+				continue
+			}
+			for _, in := range b.Instrs {
+				c, ok := in.(ssa.CallInstruction)
+				if !ok {
+					continue
+				}
+				descend := visit(c, ctx)
+				g := c.Common().StaticCallee()
+				if !descend || g == nil || g.Blocks == nil || e.fnRole(g) != role || depth >= 4 {
+					continue
+				}
+				rec := false
+				for _, cc := range ctx {
+					if cc.callee == g {
+						rec = true
+					}
+				}
+				if rec || g == root {
+					continue
+				}
+				walk(g, append(append([]callCtx{}, ctx...), callCtx{c, g}), depth+1)
+			}
+		}
+	}
+	walk(root, nil, 0)
+}
+
+// pathOf: the position of an instruction reached through ctx, as the list of instructions from the root function down.
+func pathOf(in ssa.Instruction, ctx []callCtx) []ssa.Instruction {
+	var p []ssa.Instruction
+	for _, c := range ctx {
+		p = append(p, c.call)
+	}
+	return append(p, in)
+}
+
+// pathBefore: a is executed before b on every execution that reaches b (dominance at the first point where the paths part).
+func pathBefore(a, b []ssa.Instruction) bool {
+	for i := 0; i < len(a) && i < len(b); i++ {
+		if a[i] == b[i] {
+			continue
+		}
+		return idominates(a[i], b[i])
+	}
+	return false
+}
+
+// originsCtx traces v, which lives in the function reached through ctx, resolving parameters through that call chain.
+func (e *Engine) originsCtx(v ssa.Value, ctx []callCtx) []string {
+	t := &tracer{e: e, seen: map[string]bool{}, out: map[string]bool{}}
+	t.trace(v, ctx, 0, "")
+	var out []string
+	for k := range t.out {
+		out = append(out, k)
+	}
+	sort.Strings(out)
+	return out
+}
+
+// resolveParam follows v through the call chain while it is a parameter of the function at the top of ctx.
+func resolveParam(v ssa.Value, ctx []callCtx) (ssa.Value, []callCtx) {
+	for len(ctx) > 0 {
+		p, ok := strip(v).(*ssa.Parameter)
+		if !ok {
+			break
+		}
+		top := ctx[len(ctx)-1]
+		if p.Parent() != top.callee {
+			break
+		}
+		idx := -1
+		for i, q := range top.callee.Params {
+			if q == p {
+				idx = i
+			}
+		}
+		args := top.call.Common().Args
+		if idx < 0 || idx >= len(args) {
+			break
+		}
+		v, ctx = args[idx], ctx[:len(ctx)-1]
+	}
+	return v, ctx
+}
+
+// lockedGetter: g only takes/releases the client mutex and returns a field of the client (a locked read).
+func (e *Engine) lockedGetter(role string, lr *lockResult, g *ssa.Function) bool {
+	if g == nil || g.Blocks == nil || e.fnRole(g) != role || g.Signature.Results().Len() != 1 {
+		return false
+	}
+	ok, locks := true, 0
+	instrs(g, func(in ssa.Instruction) {
+		if c, isC := in.(ssa.CallInstruction); isC && !isBuiltin(c) {
+			if lr.muCall(c) != "" {
+				locks++
+			} else {
+				ok = false
+			}
+		}
+		if _, isS := in.(*ssa.Store); isS {
+			// result spill slots of functions with defers are stores into local allocs
+			if _, isAl := in.(*ssa.Store).Addr.(*ssa.Alloc); !isAl {
+				ok = false
+			}
+		}
+	})
+	if !ok || locks == 0 {
+		return false
+	}
+	for _, r := range returnsOf(g) {
+		f, _ := loadedFieldDeep(retVals(r)[0])
+		if f == nil {
+			return false
+		}
+	}
+	return true
+}
